@@ -13,6 +13,16 @@ created and removed by the whole process tree are observed with an LD_PRELOAD in
   (B/E records of steps.log, written under a lock); for such a shape the enumeration is redone under the step
   scheduler of part 2 with one driver: every completion order of the simultaneously waiting steps, without fault and
   with a fault at every step (addressed by step kind + the input it works on, not by ordinal).
+  Standard input and library arguments (STDIN_LISTS): "-" with -xc / -x assembler as an input (good text and text
+  that fails in the front end), alone, before and after a named file, and "-lm" between / after inputs - in every
+  mode x -o {absent, file, -} x output location, the lists of STDIN_FAULT_LISTS also with every fault at every step.
+  Naming family (path_family; good inputs, no injected fault): how inputs and -o are WRITTEN - directory part
+  {none, ./, sub/, d.1/, ../, ../up.2/, absolute through ab.3/} x last component {name.ext, no extension (with -x),
+  a.v2.ext, all extension (.c), the same name in every slot} = 35 forms: every form alone in every mode (also with -MD,
+  and with a sentinel at the documented output), every ordered pair over PAIR_FORMS (thorough: all 35 x 35, and
+  triples), five spellings of the -o path with and without -MD, -MD -MF.  The model's output names (last component,
+  extension replaced, in the cwd; acceptable alternatives where conventions differ) are arbitrated by running gcc
+  on the same single-input command; a command on which gcc and the model disagree is not judged.
 Part 2 (schedules): two (thorough: also three) drivers in one directory.  Every subprocess step blocks in its shim on
 a unix socket; the orchestrator waits until the whole process tree is quiescent, grants ONE of the blocked steps
 (any driver may have several blocked at once - each is an enabled transition), waits for that process to be gone, and
@@ -22,7 +32,12 @@ without one injected fault; each driver's exit status and outputs must equal tho
 Judged (only what the property states): exit status != 0 when a step fails / input is bad / output is unwritable
 and == 0 otherwise; status 0 is not returned while a started step has yet to run; the output of a translation unit
 whose front end failed is neither created nor changed; no temporary left; the directory changes by exactly the
-requested outputs; concurrent runs == solo runs.
+requested outputs (one per translation unit under its documented name, dependency files included, nothing else
+anywhere in the tree); concurrent runs == solo runs.
+One output file for several translation units (one -o under -E/-S/-c with several inputs - named files, standard
+input; or default names that coincide): the property leaves the driver free to refuse the command, so a non-zero
+exit is never a deviation there; but exit status 0 means no unit's output was lost: every unit must be found in the
+output (`tu-output-lost`).  Only for coinciding DEFAULT names the conventional "last one wins" (gcc) is accepted.
 
 Harness trouble is exit 2 - unless part 1 has violations that were reproduced serially: those are reported, and the
 trouble (which can only concern part 2 or the scheduler) is recorded as incompleteness in the evidence.
@@ -84,17 +99,19 @@ def build_tools(chibicc, include, workroot):
         raise core.HarnessError("as/ld not found on PATH")
     mats = {}
     for slot in range(3):
-        for k in ("c", "c_pp", "c_parse", "c_gen", "c_asm"):
-            mats[M.in_name(k, slot)] = M.c_source(k, slot).encode()
-        for k in ("s", "s_bad"):
-            mats[M.in_name(k, slot)] = M.s_source(k, slot).encode()
-        for k in ("o", "o_bad"):
-            sp = os.path.join(tools, "m.s")
-            with open(sp, "w") as f:
-                f.write(M.s_source(k, slot))
-            op = os.path.join(tools, "m.o")
-            core.sh([real_as, "-o", op, sp], check=True)
-            mats[M.in_name(k, slot)] = open(op, "rb").read()
+        # "main:" variants: the unit of slot 1 / 2 defines main() (when the inputs before it are library arguments)
+        for pre, main in [("", None)] + ([("main:", True)] if slot else []):
+            for k in ("c", "c_pp", "c_parse", "c_gen", "c_asm"):
+                mats[pre + M.in_name(k, slot)] = M.c_source(k, slot, main).encode()
+            for k in ("s", "s_bad"):
+                mats[pre + M.in_name(k, slot)] = M.s_source(k, slot, main).encode()
+            for k in ("o", "o_bad"):
+                sp = os.path.join(tools, "m.s")
+                with open(sp, "w") as f:
+                    f.write(M.s_source(k, slot, main))
+                op = os.path.join(tools, "m.o")
+                core.sh([real_as, "-o", op, sp], check=True)
+                mats[pre + M.in_name(k, slot)] = open(op, "rb").read()
     cfg = {"chibicc": chibicc, "include": include, "shim": os.path.join(tools, "c14_shim"),
            "preload": os.path.join(tools, "c14_preload.so"), "as": real_as, "ld": real_ld,
            "root": workroot, "mats": mats}
@@ -206,20 +223,28 @@ class Sandbox:
         self.cfg, self.run = cfg, run
         shutil.rmtree(run, ignore_errors=True)
         self.d = os.path.join(run, "d")
+        self.cwd = self.d
         os.makedirs(self.d)
         os.mkdir(os.path.join(run, "tmp"))
         self.nruns = 0
 
     def populate(self, shape):
-        for name, kind in zip(shape.inputs, shape.kinds):
-            p = os.path.join(self.d, name)
+        for sub in shape.layout_dirs():
+            os.makedirs(os.path.join(self.d, sub), exist_ok=True)
+        self.cwd = os.path.join(self.d, shape.cwd_rel) if shape.cwd_rel else self.d
+        for rel, kind, key in shape.materials():
+            p = os.path.join(self.d, rel)
             if kind == "c_dir":
                 os.mkdir(p)
             elif kind.endswith("_nx"):
                 pass
             else:
                 with open(p, "wb") as f:
-                    f.write(self.cfg["mats"][name])
+                    f.write(self.cfg["mats"][key])
+        sm = shape.stdin_material()
+        if sm:      # the text that arrives on the driver's standard input (kept outside the observed tree)
+            with open(os.path.join(self.run, "stdin.dat"), "wb") as f:
+                f.write(self.cfg["mats"][sm[1]])
         if shape.outloc == "sent":
             for o in shape.possible_outputs():
                 with open(os.path.join(self.d, o), "wb") as f:
@@ -227,6 +252,11 @@ class Sandbox:
         elif shape.outloc == "unw" and not shape.o:
             for o in shape.possible_outputs():
                 os.mkdir(os.path.join(self.d, o))
+
+    def stdin_file(self):
+        """The driver's standard input: the prepared text, or /dev/null."""
+        p = os.path.join(self.run, "stdin.dat")
+        return open(p, "rb") if os.path.exists(p) else open(os.devnull, "rb")
 
     def prepare_invocation(self, tag, fault=None, sched=None, ident=None):
         """Returns (argv prefix, env, paths) for one driver invocation sharing this sandbox's directory.
@@ -325,12 +355,13 @@ class Sandbox:
     def run_one(self, shape_argv, fault=None):
         self.nruns += 1
         prefix, env, inv = self.prepare_invocation("%d" % self.nruns, fault)
-        try:
-            p = subprocess.run(prefix + shape_argv, cwd=self.d, env=env, stdin=subprocess.DEVNULL,
-                               stdout=subprocess.PIPE, stderr=subprocess.PIPE, timeout=RUN_TIMEOUT)
-            status, out, err = p.returncode, p.stdout, p.stderr
-        except subprocess.TimeoutExpired as e:
-            status, out, err = "timeout", e.stdout or b"", e.stderr or b""
+        with self.stdin_file() as fin:
+            try:
+                p = subprocess.run(prefix + shape_argv, cwd=self.cwd, env=env, stdin=fin,
+                                   stdout=subprocess.PIPE, stderr=subprocess.PIPE, timeout=RUN_TIMEOUT)
+                status, out, err = p.returncode, p.stdout, p.stderr
+            except subprocess.TimeoutExpired as e:
+                status, out, err = "timeout", e.stdout or b"", e.stderr or b""
         obs = self.collect(inv, status, out, err)
         obs["tmpdir_left"] = sorted(os.listdir(os.path.join(self.run, "tmp")))
         return obs
@@ -427,31 +458,81 @@ def judge(shape, fault, obs, before, after, base_steps=None, cc1_slots=None):
         devs.append(("temp-left", "left in $TMPDIR: %s" % obs["tmpdir_left"]))
 
     # 4. the directory changes by exactly the requested outputs
-    changed = sorted(p for p in set(before) | set(after) if before.get(p) != after.get(p))
-    allowed = set(shape.outputs)
-    for p in changed:
-        if p in flagged:
-            continue
-        if p in shape.inputs:
-            devs.append(("input-modified", "%s: %s -> %s" % (p, show(before.get(p)), show(after.get(p)))))
-        elif p not in allowed:
-            ext = "-o-path" if p == shape.opath else "a.out" if p == "a.out" else (os.path.splitext(p)[1] or "other")
-            devs.append(("unexpected-file|%s" % ext, "%s: %s -> %s (requested outputs: %s)" % (p, show(before.get(p)), show(after.get(p)), shape.outputs)))
-    if shape.ok is True and not fault and st == 0:
+    devs += naming_devs(shape, before, after, flagged, success=(not fault and st == 0 and shape.ok is not False))
+    if not fault and st == 0 and shape.ok is not False:
+        # Success was reported (also where the property lets the driver refuse - one -o for several inputs,
+        # coinciding default names): then every translation unit's output is there, none was lost
         for p in shape.outputs:
-            a = after.get(p)
-            if a is None or a[0] != "f" or a[1] == M.SENTINEL or not a[1]:
-                devs.append(("missing-output", "%s: %s" % (p, show(a))))
-                continue
-            bad = content_problem(shape, p, a[1])
+            q = present_alt(shape, p, after)
+            if q is None:
+                continue        # reported as missing-output
+            bad = content_problem(shape, p, after[q][1])
             if bad:
-                devs.append(("output-wrong-content", "%s: %s" % (p, bad)))
+                devs.append(bad if isinstance(bad, tuple) else ("output-wrong-content", "%s: %s" % (q, bad)))
+        names = [os.path.basename(a).encode() for a, k in zip(shape.inputs, shape.kinds) if k in M.C_KINDS]
+        for alts, slot in shape.deps:
+            q = next((a for a in alts if is_output_file(after.get(a)) and before.get(a) != after.get(a)), None)
+            if q is not None and not any(n in after[q][1] for n in names):
+                devs.append(("output-wrong-content", "dependency file %s names none of the inputs" % q))
         if shape.to_stdout:
             for i in [j for j, k in enumerate(shape.kinds) if k in M.C_KINDS]:
                 if M.sym(i).encode() not in obs["stdout"]:
                     devs.append(("output-wrong-content", "stdout lacks the text of input %d" % i))
                     break
+        if shape.name_collision:
+            cnt["default_names_coincide_by_the_documented_rule"] = 1
     return devs, cnt
+
+
+def file_ext(p):
+    """'.o' for 'x.o', '..o' and '.o'; '' without a dot"""
+    b = os.path.basename(p)
+    return "." + b.rsplit(".", 1)[1] if "." in b and not b.endswith(".") else ""
+
+
+def is_output_file(x):
+    return x is not None and x[0] == "f" and x[1] != M.SENTINEL and bool(x[1])
+
+
+def present_alt(shape, p, after):
+    """The acceptable spelling of requested output p that exists (as a non-empty file that is not the sentinel)."""
+    return next((q for q in shape.alts.get(p, (p,)) if is_output_file(after.get(q))), None)
+
+
+def naming_devs(shape, before, after, flagged=(), success=False):
+    """Clause 'the directory changes by exactly the requested outputs': every changed path is a requested output
+    (in one of its acceptable spellings), inputs are untouched; on success every requested output exists.  Looks at
+    names only, so it can also be applied to what another driver (gcc) does with the same command."""
+    devs = []
+    changed = sorted(p for p in set(before) | set(after) if before.get(p) != after.get(p))
+    allowed = shape.allowed_paths()
+    for p in changed:
+        if p in flagged:
+            continue
+        if p in shape.in_files:
+            devs.append(("input-modified", "%s: %s -> %s" % (p, show(before.get(p)), show(after.get(p)))))
+        elif p not in allowed:
+            ext = "-o-path" if p == shape.opath else "a.out" if os.path.basename(p) == "a.out" else (file_ext(p) or "other")
+            devs.append(("unexpected-file|%s" % ext, "%s: %s -> %s (requested outputs: %s)" % (p, show(before.get(p)), show(after.get(p)), shape.outputs)))
+    if success:
+        missing = []
+        for p in shape.outputs:
+            if present_alt(shape, p, after) is None:
+                missing.append(("missing-output", "%s: %s" % (p, show(after.get(p))), file_ext(p)))
+        for alts, slot in shape.deps:
+            if not any(is_output_file(after.get(a)) for a in alts):
+                missing.append(("missing-output|.d", "dependency file of %s: none of %s exists" % (shape.inputs[slot], list(alts)), ".d"))
+        # a requested output is absent and a file of the same type appeared under another name: one deviation
+        for ext in sorted(set(m[2] for m in missing if m[2])):
+            stray = [d for d in devs if d[0] == "unexpected-file|%s" % ext and ": absent -> " in d[1]]
+            if stray:
+                gone = [m for m in missing if m[2] == ext]
+                devs = [d for d in devs if d not in stray]
+                missing = [m for m in missing if m not in gone]
+                devs.append(("output-misnamed|%s" % ext, "expected %s; created instead: %s" % (
+                    "; ".join(m[1] for m in gone), "; ".join(d[1].split(" (requested")[0] for d in stray))))
+        devs += [(m[0], m[1]) for m in missing]
+    return devs
 
 
 def show(x):
@@ -465,16 +546,30 @@ def show(x):
 
 
 def content_problem(shape, p, data):
+    """None, a text (wrong content), or a (deviation, detail) pair."""
     slots = [i for i in shape.tu_out if shape.tu_out[i] == p]
     if shape.mode == "link":
         if elf_type(data) not in (2, 3):
             return "not an ELF executable"
-        slots = range(len(shape.kinds))
+        slots = [i for i, k in enumerate(shape.kinds) if k != "lib"]
     elif shape.mode == "c":
         if elf_type(data) != 1:
             return "not a relocatable ELF object"
+    have = [i for i in slots if M.sym(i).encode() in data]
+    if shape.mode != "link" and len(slots) > 1:
+        # One file is the output of several translation units (one -o, or coinciding default names) and the driver
+        # reported success.  With coinciding DEFAULT names conventional drivers let the last unit win (gcc does):
+        # not judged beyond "it is one of them".  With one -o the command either is refused or loses nothing.
+        if shape.name_collision:
+            return None if have else "contains none of the inputs %s" % slots
+        if len(have) < len(slots):
+            lost = [i for i in slots if i not in have]
+            return ("tu-output-lost|units-share-one-output-file",
+                    "exit status 0, but %s is the only output of %d translation units and lacks %s" % (
+                        p, len(slots), ", ".join("input %d (%s)" % (i, shape.inputs[i]) for i in lost)))
+        return None
     for i in slots:
-        if M.sym(i).encode() not in data:
+        if i not in have:
             return "does not contain input %d (%s)" % (i, shape.inputs[i])
     return None
 
@@ -553,6 +648,10 @@ class Orchestrator:
         tmpleft, diverged (the prefix could not be followed), degraded."""
         faults = faults or {}
         user_files = set(user_files)
+        by_base = {}
+        for u in user_files:
+            by_base.setdefault(os.path.basename(u), []).append(u)
+        by_base = {b: us[0] for b, us in by_base.items() if len(us) == 1 and not b.startswith("-")}
         become_subreaper()
         me = os.getpid()
         foreign = set(_pchildren(me))       # children this process had before: not ours to watch or reap
@@ -573,8 +672,8 @@ class Orchestrator:
                 envf = f if f and f[2] == "noexec" else None
                 pre, env, inv = sb.prepare_invocation("d%d" % i, envf, sched=sockp, ident=str(i))
                 invs.append(inv)
-                with open(os.path.join(inv, "stdout"), "wb") as so, open(os.path.join(inv, "stderr"), "wb") as se:
-                    procs.append(subprocess.Popen(pre + argv, cwd=sb.d, env=env, stdin=subprocess.DEVNULL, stdout=so, stderr=se))
+                with open(os.path.join(inv, "stdout"), "wb") as so, open(os.path.join(inv, "stderr"), "wb") as se, sb.stdin_file() as fin:
+                    procs.append(subprocess.Popen(pre + argv, cwd=sb.cwd, env=env, stdin=fin, stdout=so, stderr=se))
             driver_pids.update(p.pid for p in procs)
             deadline = time.time() + RUN_TIMEOUT
             stepinfo = [[] for _ in cmds]       # per driver: dict(kind, k, out, unit) of every announced step
@@ -595,12 +694,16 @@ class Orchestrator:
                     return "*", out
                 skip = set(j + 1 for j, a in enumerate(argv) if a in ("-o", "-cc1-output"))
                 cand = None
+                # the input as written on the command line (inputs in different directories may share their last
+                # component), else - a driver may rewrite the path - its last component when that is unambiguous
                 if "-cc1-input" in argv[:-1]:
-                    c = os.path.basename(argv[argv.index("-cc1-input") + 1])
-                    cand = c if c in user_files else None
+                    c = argv[argv.index("-cc1-input") + 1]
+                    cand = c if c in user_files else by_base.get(os.path.basename(c))
                 if cand is None:
-                    hits = set(os.path.basename(a) for j, a in enumerate(argv)
-                               if j not in skip and not a.startswith("-") and os.path.basename(a) in user_files)
+                    hits = set(a for j, a in enumerate(argv) if j not in skip and a in user_files and (a == "-" or not a.startswith("-")))
+                    if not hits:
+                        hits = set(by_base[os.path.basename(a)] for j, a in enumerate(argv)
+                                   if j not in skip and not a.startswith("-") and by_base.get(os.path.basename(a)))
                     if len(hits) == 1:
                         cand = hits.pop()
                 if cand is None:
@@ -842,7 +945,7 @@ def run_shape(cfg, shape, faults, rundir, force_orch=False):
         try:
             sb.populate(shape)
             before = snapshot(sb.d)
-            obs = sb.run_one(shape.argv(), fault)
+            obs = sb.run_one(shape.argv(sb.d), fault)
             after = snapshot(sb.d)
         finally:
             sb.destroy()
@@ -899,10 +1002,12 @@ def run_shape(cfg, shape, faults, rundir, force_orch=False):
 
 def run_shape_orch(cfg, shape, faults, rundir, res, base_steps, cc1_slots, bump):
     orch = Orchestrator(cfg, rundir)
+    absroot = os.path.join(rundir, "d")     # where Sandbox(cfg, rundir) puts the observed tree
 
     def sweep(fault):
         def once(pre):
-            return orch_run(orch, lambda sb: sb.populate(shape), [shape.argv()], pre, {0: fault} if fault else {}, shape.inputs)
+            return orch_run(orch, lambda sb: sb.populate(shape), [shape.argv(absroot)], pre, {0: fault} if fault else {},
+                            shape.inputs_at(absroot))
         runs, truncated = explore(once)
         if truncated:
             res["cnt"]["order_exploration_truncated"] = res["cnt"].get("order_exploration_truncated", 0) + 1
@@ -941,14 +1046,18 @@ def run_shape_orch(cfg, shape, faults, rundir, res, base_steps, cc1_slots, bump)
 
 
 def _shape_batch(args):
-    cfg, specs, faults, wid = args
+    cfg, specs, wid = args
+    t0 = time.time()
     iso = isolate_tmp(cfg)
     out = []
-    for spec in specs:
+    for spec, faults in specs:
         shape = M.Shape(*spec)
-        r = run_shape(cfg, shape, faults, os.path.join(cfg["root"], "w%d" % wid))
+        r = run_shape(cfg, shape, list(faults), os.path.join(cfg["root"], "w%d" % wid))
         r["iso"] = iso
+        r["nfaults"] = len(faults)
         out.append((spec, r))
+    if out:
+        out[0][1]["batch_seconds"] = round(time.time() - t0, 1)
     return out
 
 
@@ -1066,20 +1175,202 @@ def _sched_judge(files, solos, r):
 # main
 # ----------------------------------------------------------------------------------------------------
 def shape_specs(tier):
+    """[(spec, faults to inject at every step)] of every command shape of the tier, and the number of generated shapes
+    the property does not define."""
     specs, undefined = [], 0
-    shapes = list(M.enumerate_shapes(ALPHABET[tier]))
-    shapes += [M.Shape(mode, o, kinds, "w") for mode in ("c", "link") for o in (None, "file") for kinds in EXTRA_LISTS[tier]]
+    allf = tuple(FAULTS[tier])
+    shapes = [(sh, allf) for sh in M.enumerate_shapes(ALPHABET[tier])]
+    shapes += [(M.Shape(mode, o, kinds, "w"), allf) for mode in ("c", "link") for o in (None, "file") for kinds in EXTRA_LISTS[tier]]
+    shapes += stdin_family(tier) + path_family(tier)
     seen = set()
-    for sh in shapes:
-        spec = (sh.mode, sh.o, sh.kinds, sh.outloc)
+    for sh, faults in shapes:
+        spec = sh.spec()
         if spec in seen:
             continue
         seen.add(spec)
         if not sh.defined:
             undefined += 1
             continue
-        specs.append(spec)
+        specs.append((spec, faults))
     return specs, undefined
+
+
+# Standard input and library arguments as inputs.  Every list is run in every mode x -o {absent, file, -} x output
+# location; the lists in STDIN_FAULT_LISTS (writable directory, -o absent / file) additionally with every fault at
+# every step.  Each list with two translation units and one -o is a command the driver must either refuse or carry out
+# without losing a unit.
+STDIN_LISTS = {
+    "quick": [("c_in",), ("s_in",), ("c_pp_in",), ("c_gen_in",),
+              ("c", "c_in"), ("c_in", "c"), ("s", "s_in"), ("s_in", "s"), ("c_pp", "c_in"), ("c_in", "c_pp"),
+              ("c", "c_pp_in"), ("c_pp_in", "c"), ("c_gen_in", "c"), ("c_asm", "c_in"),
+              ("c", "lib"), ("lib", "c"), ("c_in", "lib"), ("s", "lib"), ("c_pp", "lib"),
+              ("c", "lib", "c_in"), ("c", "c", "lib")],
+}
+STDIN_LISTS["thorough"] = STDIN_LISTS["quick"] + [
+    ("c_in", "c_gen"), ("c_gen", "c_in"), ("c", "c_gen_in"), ("c_in", "c_asm"), ("s_bad", "s_in"), ("s_in", "s_bad"),
+    ("c_in", "c_nx"), ("c_nx", "c_in"), ("lib", "c_in"), ("s_in", "lib"), ("lib", "s"), ("c", "c_in", "c"), ("c_in", "c", "c"),
+    ("c", "c", "c_in"), ("s", "s_in", "s"), ("c_in", "lib", "c"), ("lib", "c", "c_in"), ("c", "c_pp_in", "c"),
+    ("c_pp", "c_in", "c"), ("c", "lib", "c"), ("o", "lib"), ("c", "o", "lib")]
+STDIN_FAULT_LISTS = {
+    "quick": [("c_in",), ("c", "c_in"), ("c_in", "c"), ("s_in", "s"), ("c", "lib")],
+    "thorough": STDIN_LISTS["thorough"],
+}
+
+
+def stdin_family(tier):
+    out = []
+    for kinds in STDIN_LISTS[tier]:
+        for mode in ("E", "S", "c", "link"):
+            for o in (None, "file", "dash"):
+                for outloc in ("w", "sent", "unw"):
+                    faulted = kinds in STDIN_FAULT_LISTS[tier] and o != "dash" and (outloc == "w" or tier == "thorough")
+                    out.append((M.Shape(mode, o, kinds, outloc), tuple(FAULTS[tier]) if faulted else ()))
+    return out
+
+
+# How inputs and -o are NAMED.  form = "<directory form>|<name form>" (models/c14_driver.py DIR_FORMS x NAME_FORMS).
+ALL_FORMS = ["%s|%s" % (d, n) for d in M.DIR_FORMS for n in M.NAME_FORMS]
+# the forms that are paired with each other in the quick tier: every directory form, every name form
+PAIR_FORMS = {
+    "quick": ["|ext", "./|noext", "d.1/|noext", "../up.2/|noext", "../up.2/|dots", "sub/|same", "d.1/|same", "d.1/|dotonly"],
+    "thorough": ALL_FORMS,
+}
+# inputs used where the -o spelling / -MF is what varies
+FEW_FORMS = ["|ext", "d.1/|noext", "../up.2/|dots"]
+
+
+def path_family(tier):
+    """Good inputs only (kinds c and s), no injected faults: what is explored here is the naming of outputs.
+      single input: every form x every mode x {no -o} x {writable, sentinel at the documented names} x {-, -MD};
+      single input x every -o spelling x {-, -MD}; -MD -MF;
+      two inputs of one language: every ordered pair over PAIR_FORMS x {-S, -c} x {-, -MD}, link x -MD (thorough: link
+      without -MD and with -o as well)."""
+    out = []
+
+    def add(mode, o, kinds, outloc, **var):
+        out.append((M.Shape(mode, o, kinds, outloc, tuple(sorted(var.items()))), ()))
+    for f in ALL_FORMS:
+        for mode in ("E", "S", "c", "link"):
+            add(mode, None, ("c",), "w", paths=(f,))
+            add(mode, None, ("c",), "w", paths=(f,), md="MD")
+            if mode in ("S", "c"):
+                add(mode, None, ("c",), "sent", paths=(f,))
+            if mode in ("c", "link"):
+                add(mode, None, ("s",), "w", paths=(f,))
+            if mode == "c":
+                add(mode, None, ("s",), "sent", paths=(f,))
+    for f in FEW_FORMS:
+        for mode in ("E", "S", "c", "link"):
+            for of in M.O_FORMS:
+                for md in (None, "MD"):
+                    add(mode, "file", ("c",), "w", paths=(f,), oform=of, md=md)
+                if mode in ("c", "link"):
+                    add(mode, "file", ("s",), "w", paths=(f,), oform=of)
+            for o in (None, "file"):
+                add(mode, o, ("c",), "w", paths=(f,), md="MF")
+    forms = PAIR_FORMS[tier]
+    for f in forms:
+        for g in forms:
+            # (in link mode only the dependency files are named after the inputs)
+            for mode in ("S", "c"):
+                add(mode, None, ("c", "c"), "w", paths=(f, g))
+            add("c", None, ("s", "s"), "w", paths=(f, g))
+            add("c", None, ("c", "c"), "w", paths=(f, g), md="MD")
+            add("link", None, ("c", "c"), "w", paths=(f, g), md="MD")
+            if tier == "thorough":
+                add("link", None, ("c", "c"), "w", paths=(f, g))
+                add("link", None, ("s", "s"), "w", paths=(f, g))
+                add("link", "file", ("c", "c"), "w", paths=(f, g), oform="./out", md="MD")
+    if tier == "thorough":
+        for f in PAIR_FORMS["quick"]:
+            for g in PAIR_FORMS["quick"]:
+                for h in FEW_FORMS + ["sub/|same"]:
+                    for mode in ("c", "link"):
+                        add(mode, None, ("c", "c", "c"), "w", paths=(f, g, h))
+    return out
+
+
+# ----------------------------------------------------------------------------------------------------
+# second oracle for output names: what gcc creates for the same command
+# ----------------------------------------------------------------------------------------------------
+def _gcc_naming(args):
+    """For -S / -c shapes of the naming family: run gcc with the very same arguments in the same tree and apply the
+    naming clause to what it did.  Returns [(spec, deviations)]: a shape with deviations is one where the model's
+    idea of 'the requested outputs' is not shared by the reference driver - it is then not judged at all."""
+    cfg, specs, wid = args
+    gcc = shutil.which("gcc")
+    out = []
+    for spec in specs:
+        shape = M.Shape(*spec)
+        sb = Sandbox(cfg, os.path.join(cfg["root"], "g%d" % wid))
+        try:
+            sb.populate(shape)
+            before = snapshot(sb.d)
+            with sb.stdin_file() as fin:
+                st, _, err = _run_plain([gcc, "-w"] + shape.argv(sb.d), sb.cwd, fin)
+            after = snapshot(sb.d)
+        finally:
+            sb.destroy()
+        if st == "timeout":
+            out.append((spec, ["timeout"]))
+            continue
+        ok = st == 0
+        devs = [d for d, _ in naming_devs(shape, before, after, success=ok)]
+        if shape.ok is True and not ok:
+            devs.append("rejected")
+        if shape.ok is False and ok:
+            devs.append("accepted")
+        out.append((spec, devs))
+    return out
+
+
+def _run_plain(argv, cwd, fin):
+    try:
+        p = subprocess.run(argv, cwd=cwd, stdin=fin, stdout=subprocess.PIPE, stderr=subprocess.PIPE, timeout=RUN_TIMEOUT)
+        return p.returncode, p.stdout, p.stderr
+    except subprocess.TimeoutExpired:
+        return "timeout", b"", b""
+
+
+def gcc_naming_oracle(cfg, specs):
+    """gcc arbitrates the naming-family shapes with ONE input under -S / -c (writable directory): that is where the
+    naming rule lives.  A shape with several inputs is covered by the verdicts on each of its inputs alone (what
+    happens when names coincide is not judged by name anyway).  Returns ({name class: deviations}, number of gcc runs)."""
+    naming = [spec for spec in specs if len(spec) == 5 and any(k in ("paths", "oform") for k, _ in spec[4])]
+    todo = [spec for spec in naming if spec[0] in ("S", "c") and spec[3] == "w" and len(spec[2]) == 1]
+    nb = core.NPROC * 2
+    jobs = [(cfg, todo[i::nb], i) for i in range(nb) if todo[i::nb]]
+    bad = {}
+    for res in core.pmap(_gcc_naming, jobs):
+        for spec, devs in res:
+            if devs:
+                bad[_nameclass(spec)] = devs
+    for spec in naming:
+        if len(spec[2]) > 1:
+            var = dict(spec[4])
+            for i, k in enumerate(spec[2]):
+                # the same input alone, in slot 0 (the slot number is part of some names only)
+                single = (spec[0], spec[1], (k,), tuple(sorted(dict(var, paths=(var["paths"][i],)).items())))
+                if single in bad:
+                    bad[_nameclass(spec)] = ["input %d alone: %s" % (i, "+".join(bad[single]))]
+    return bad, len(todo)
+
+
+def _nameclass(spec):
+    return (spec[0], spec[1], spec[2], spec[4] if len(spec) == 5 else ())
+
+
+def shape_from_json(spec):
+    var = tuple((k, tuple(v) if isinstance(v, list) else v) for k, v in spec[4]) if len(spec) > 4 else ()
+    return M.Shape(spec[0], spec[1], tuple(spec[2]), spec[3], var)
+
+
+def family_of(spec):
+    if len(spec) == 5:
+        return "naming"
+    if any(k in M.STDIN_KINDS or k == "lib" for k in spec[2]):
+        return "stdin+lib"
+    return "classic"
 
 
 def fault_class(fault):
@@ -1105,6 +1396,21 @@ def run(ctx):
 
     # ---------------- part 1 ----------------
     specs, undefined = shape_specs(ctx.tier)
+    # Output names: the model's documented names must be what the reference driver produces too, otherwise the
+    # shape is not judged (two-oracle rule)
+    name_disagree, gcc_runs = gcc_naming_oracle(cfg, [sp for sp, _ in specs])
+    nspecs = len(specs)
+    specs = [(sp, f) for sp, f in specs if _nameclass(sp) not in name_disagree]
+    ctx.cover(gcc_naming_oracle_runs=gcc_runs, oracle_disagreements=len(name_disagree),
+              oracle_disagreement_cases=sorted("chibicc %s: gcc %s" % (" ".join(M.Shape(k[0], k[1], k[2], "w", k[3]).argv()), "+".join(v))
+                                               for k, v in name_disagree.items()),
+              shapes_not_judged_for_oracle_disagreement=nspecs - len(specs))
+    if gcc_runs and len(name_disagree) * 4 > gcc_runs:
+        raise core.HarnessError("the naming model and gcc disagree on %d of %d commands, e.g. %s" % (
+            len(name_disagree), gcc_runs, sorted(name_disagree.items(), key=str)[:3]))
+    _debug(ctx, "gcc naming oracle: %d runs, %d disagreements" % (gcc_runs, len(name_disagree)))
+    # expensive shapes (fault enumeration) first, round-robin over the batches
+    specs.sort(key=lambda t: -len(t[1]))
     order = list(range(len(specs)))
     if ctx.seed:
         import random
@@ -1120,9 +1426,11 @@ def run(ctx):
         if ctx.out_of_time(reserve=BUDGET[ctx.tier] * 0.35):
             ctx.incomplete("part 1 stopped by the deadline after %d of %d shape batches" % (done_batches, len(batches)))
             break
-        args = [(cfg, b, faults, w0 + i) for i, b in enumerate(batches[w0:w0 + wave])]
+        args = [(cfg, b, w0 + i) for i, b in enumerate(batches[w0:w0 + wave])]
         for r in core.pmap(_shape_batch, args):
             results += r
+            if r and os.environ.get("C14_DEBUG"):
+                sys.stderr.write(" %s" % r[0][1].get("batch_seconds"))
         done_batches += len(args)
         _debug(ctx, "part 1: %d of %d batches" % (done_batches, len(batches)))
 
@@ -1134,15 +1442,24 @@ def run(ctx):
     nontrivial = set()
     orch_errors = []
     nonlast_failing = {}     # failure kind -> number of multi-input shapes with such a unit in a non-last position
+    families = {}
+    accepted_conflicts = named_ok = 0
     for spec, r in results:
         runs += r["runs"]
         ntemps += r["ntemps"]
-        fault_points += len(r["steps"]) * len(faults)
+        fault_points += len(r["steps"]) * r["nfaults"]
+        families[family_of(spec)] = families.get(family_of(spec), 0) + 1
         for k, v in r["cnt"].items():
             counters[k] = counters.get(k, 0) + v
         outcome_classes.add((spec[0], r["status"] == 0, len(r["steps"])))
         if r["steps"]:
             nontrivial.add(spec)
+        if r["status"] == 0:
+            sh = M.Shape(*spec)
+            if sh.usage_conflict or sh.name_collision:
+                accepted_conflicts += 1
+            if sh.cwd_rel:
+                named_ok += 1
         if r.get("orch_error"):
             orch_errors.append(r["orch_error"])
         if spec[0] == "link" or (spec[0] == "c" and "o_bad" not in spec[2]):
@@ -1178,8 +1495,9 @@ def run(ctx):
     nconfirmed = 0
     groups = {}
     for spec, fault, dv, detail, via in viol:
-        mode, o, kinds, outloc = spec
-        groups.setdefault(dv, {}).setdefault((mode, o or "absent", fault_class(fault)), []).append((frozenset(kinds), spec, fault, detail, via))
+        mode, o, kinds, outloc = spec[:4]
+        groups.setdefault(dv, {}).setdefault((mode, o or "absent", fault_class(fault)), []).append(
+            (frozenset(M.Shape(*spec).tokens()), spec, fault, detail, via))
     for dv, cells in sorted(groups.items()):
         attributed = []     # (attr kinds, mode, fault class, spec, fault, detail, via)
         for (mode, o, fc), items in sorted(cells.items()):
@@ -1227,10 +1545,13 @@ def run(ctx):
                 ctx.cover(part1_cases_not_reproduced_serially=len(cases))
         for sig, spec, fault, detail, via in confirmed:
             sh = M.Shape(*spec)
-            case = {"part": 1, "spec": [spec[0], spec[1], list(spec[2]), spec[3]], "fault": list(fault) if fault else None,
+            case = {"part": 1, "spec": [spec[0], spec[1], list(spec[2]), spec[3]] + ([[list(kv) for kv in spec[4]]] if len(spec) == 5 else []),
+                    "fault": list(fault) if fault else None,
                     "deviation": dv, "orch": via == "orch"}
-            desc = "chibicc %s  [inputs %s; output location %s; fault %s] -> %s: %s" % (
-                " ".join(sh.argv()), ",".join(spec[2]), spec[3], fault_text(fault), dv, detail)
+            desc = "chibicc %s  [inputs %s; output location %s; fault %s%s%s] -> %s: %s" % (
+                " ".join(sh.argv()), ",".join(spec[2]), spec[3], fault_text(fault),
+                "; run in wd/ of a tree with wd/sub wd/d.1 up.2 ab.3 ($ABS = the tree)" if sh.cwd_rel else "",
+                "; standard input = the text of kind %s" % sh.stdin_material()[0] if sh.stdin_material() else "", dv, detail)
             if ctx.violation(sig, desc, files={"case.json": json.dumps(case, indent=1), "README.txt": desc + "\n\ninput kinds are defined in "
                                                "models/c14_driver.py (c_dir = a directory named *.c, *_nx = nonexistent, ...);\n"
                                                "a fault is <step kind>#<ordinal or input the step works on>:<how>;\n"
@@ -1254,6 +1575,11 @@ def run(ctx):
               fault_points_enumerated=fault_points, temp_creations_observed=ntemps,
               distinct_nontrivial=len(nontrivial), **counters)
     ctx.cover(shapes_with_failing_unit_before_good_ones={k: nonlast_failing[k] for k in sorted(nonlast_failing)})
+    conflict_shapes = sum(1 for sp, _ in results if M.Shape(*sp).usage_conflict)
+    ctx.cover(shapes_by_family=families, shapes_one_output_for_several_inputs=conflict_shapes,
+              conflicting_commands_accepted_by_the_driver=accepted_conflicts, naming_shapes_succeeded=named_ok)
+    if ctx.exhaustive and (not families.get("naming") or not families.get("stdin+lib") or not named_ok or not conflict_shapes):
+        raise core.HarnessError("vacuous: the naming / standard-input families did not run (%s, %d succeeded)" % (families, named_ok))
 
     _debug(ctx, "part 1 judged and confirmed")
     # ---------------- part 2 ----------------
@@ -1271,7 +1597,17 @@ def run(ctx):
                    "one complete schedule; non-trivial = the command shape makes the driver start at least one "
                    "subprocess (counted per distinct shape)",
               fault_kinds=faults, alphabet={str(k): v for k, v in ALPHABET[ctx.tier].items()},
-              extra_lists=[list(x) for x in EXTRA_LISTS[ctx.tier]])
+              extra_lists=[list(x) for x in EXTRA_LISTS[ctx.tier]],
+              stdin_and_library_lists=[list(x) for x in STDIN_LISTS[ctx.tier]],
+              stdin_and_library_lists_with_faults=[list(x) for x in STDIN_FAULT_LISTS[ctx.tier]],
+              input_path_forms={"directory_forms": sorted(M.DIR_FORMS), "name_forms": {k: list(v) for k, v in M.NAME_FORMS.items()},
+                                "single_input": len(ALL_FORMS), "paired": PAIR_FORMS[ctx.tier]},
+              o_spellings=list(M.O_FORMS), dependency_file_options=["-MD", "-MD -MF " + M.MF_NAME],
+              naming_rule="default output = last component of the input as written, extension replaced, in the cwd; "
+                          "acceptable alternatives in models/c14_driver.py; arbitrated by gcc for -S/-c",
+              shared_output_rule="one output file for several translation units (one -o under -E/-S/-c, coinciding "
+                                 "default names): exit != 0, or exit 0 and no unit's output lost (coinciding DEFAULT names: "
+                                 "last one may win, as in gcc)")
     for spec, r in results[:200]:
         if len(r["steps"]) >= 3:
             ctx.sample({"argv": M.Shape(*spec).argv(), "outloc": spec[3], "steps": ["%s#%d" % s for s in r["steps"]],
@@ -1402,7 +1738,7 @@ def replay_case(path):
         cfg = build_tools(chibicc, os.path.join(tree, "include"), root)
         if case["part"] == 1:
             spec = case["spec"]
-            shape = M.Shape(spec[0], spec[1], tuple(spec[2]), spec[3])
+            shape = shape_from_json(spec)
             fault = tuple(case["fault"]) if case["fault"] else None
             r = run_shape(cfg, shape, [fault[2]] if fault else [], os.path.join(root, "w"), force_orch=bool(case.get("orch")))
             for f, dv, detail, via in r["viol"]:
